@@ -234,12 +234,10 @@ def check_c29(prog):
                violations=[], nontrivial=False)
     ref = _eval(full_src)
     base_only = _eval(progs.render(base_stmts + qs + ev))
+    got_mid = got_iter = None
     try:
         eng = DefaultEngine()
         parent = eng.prepare(PrologString(progs.render(base_stmts)))
-        child = parent.extend()
-        for cl in PrologString(progs.render(added)):
-            child += cl
         queries = [Term.from_string(progs.atom_str(q[1]).replace("_", "X")) for q in qs]
         evid = [(Term.from_string(progs.atom_str(e[1])), Term("true" if e[2] else "false")) for e in ev]
 
@@ -250,14 +248,54 @@ def check_c29(prog):
                 return "ok", dict((str(a), float(b)) for a, b in r.items())
             except Exception as ex:      # noqa
                 return "exc", classify_exception(ex)
-        got_child = run(child)
+        # the added clauses go into one extension, or into a chain of extensions (child, grandchild, ...); in a third of the
+        # cases the extension is queried half-way (histories: query, add, query again)
+        mode = rng.randrange(3)
+        levels = 1 if mode == 0 else rng.randint(1, 3)
+        cuts = sorted(rng.sample(range(1, len(added)), min(levels - 1, len(added) - 1))) if len(added) > 1 else []
+        chunks = [added[a:b] for a, b in zip([0] + cuts, cuts + [len(added)])]
+        out["src"] = "%% extension levels: %s; queried half-way: %s\n" % ([len(c) for c in chunks], mode == 2) + out["src"]
+        child = parent
+        done = []
+        for ci, chunk in enumerate(chunks):
+            child = child.extend()
+            half = len(chunk) // 2 if mode == 2 else None
+            for si, st in enumerate(chunk):
+                if si == half:
+                    mid = (run(child, eng), _eval(progs.render(base_stmts + done + qs + ev)))
+                    if mid[0][0] != "ok":
+                        eng = DefaultEngine()
+                    if got_mid is None or same_result(_norm(got_mid[1]), _norm(got_mid[0])):
+                        got_mid = mid
+                for cl in PrologString(progs.render([st])):
+                    child += cl
+                done.append(st)
+        got_child = run(child, eng)
         # C29 is about the databases: an engine object whose run ended in an exception is left with a half-unwound
         # stack (e.g. IndirectCallCycleError on its next query), so after a failed child run the parent database is
         # queried through a fresh engine; after a successful one through the same engine (interleaved queries)
-        got_parent = run(parent) if got_child[0] == "ok" else run(parent, DefaultEngine())
+        got_parent = run(parent, eng) if got_child[0] == "ok" else run(parent, DefaultEngine())
+        # the clauses the extension enumerates (ClauseDB.__iter__), evaluated as a program of their own
+        if ref[0] == "ok":
+            try:
+                from problog.program import SimpleProgram
+                sp = SimpleProgram()
+                for cl in child:
+                    sp += cl
+                e2 = DefaultEngine()
+                gp = e2.ground_all(e2.prepare(sp), queries=queries, evidence=evid)
+                got_iter = ("ok", dict((str(a), float(b)) for a, b in get_evaluatable().create_from(gp).evaluate().items()))
+            except Exception as ex:      # noqa
+                got_iter = ("exc", classify_exception(ex))
     except Exception as ex:      # noqa
         out["violations"].append(("extend:exception:" + classify_exception(ex).split(":", 1)[1], classify_exception(ex)))
         return out
+    if got_mid is not None and not same_result(_norm(got_mid[1]), _norm(got_mid[0])):
+        out["violations"].append(("extension-vs-union:half-way", "half-way the extension gives %s, preparing the union of what was "
+                                  "added so far gives %s" % (_short(got_mid[0]), _short(got_mid[1]))))
+    if got_iter is not None and not same_result(_norm(ref), _norm(got_iter)):
+        out["violations"].append(("extension-enumeration", "the clauses enumerated by the extension evaluate to %s, the union gives %s"
+                                  % (_short(got_iter), _short(ref))))
     out["nontrivial"] = ref[0] == "ok" and any(0.0 < v < 1.0 for v in ref[1].values())
     if not same_result(_norm(ref), _norm(got_child)):
         out["violations"].append(("extension-vs-union", "extension gives %s, preparing the union gives %s" % (_short(got_child), _short(ref))))
@@ -271,8 +309,10 @@ DESCR = {"C25": "to_prolog() text of the ground program (cyclic and cycle-broken
                 "re-read and compared clause by clause with the internal CNF",
          "C26": "a deterministic wrapper `ask(G,P) :- G = Goal, subquery(G,P[,Evidence])` queried with the plain engine vs "
                 "top-level (conditional) inference",
-         "C29": "the program split at random into a base and added clauses; parent.extend() + added clauses vs preparing the "
-                "union; the parent queried after the extension vs the base alone"}
+         "C29": "the program split at random into a base and added clauses; parent.extend() (one extension or a chain of up to 3 "
+                "nested ones) + added clauses vs preparing the union; in a third of the cases the extension is also queried "
+                "half-way and compared with the union of what was added so far; the parent queried after the extension vs the "
+                "base alone; the clauses enumerated by iterating the extension evaluated as a program vs the union"}
 
 
 def run(pid, tier, seed):
